@@ -71,10 +71,12 @@ def enc_csr(m):
 
 
 def enc_any(m):
-    """dense ndarray -> dense token; sparse -> CSR token of the same stored entries"""
+    """dense ndarray / np.matrix -> dense token; anything sparse -> CSR token of the same stored entries"""
     if sparse.issparse(m):
-        return enc_csr(m.tocsr())
-    return enc_dense(np.asarray(m))
+        if m.format == 'csr':
+            return enc_csr(sparse.csr_matrix((np.asarray(m.data, dtype=float), m.indices, m.indptr), shape=m.shape))
+        return enc_csr(sparse.csr_matrix(m).astype(float))
+    return enc_dense(np.asarray(m, dtype=float))
 
 
 def enc_out(m):
@@ -103,9 +105,11 @@ def tolist(m):
     return np.asarray(m, dtype=float).tolist()
 
 
-def numeric_matrix(o):
-    """The implementation returned a real 2-d float array (np.matrix accepted)?"""
+def numeric_matrix(o, strict=False):
+    """The implementation returned a real 2-d float array?  (`strict`: exactly an np.ndarray, as documented)"""
     if sparse.issparse(o):
+        return None
+    if strict and type(o) is not np.ndarray:
         return None
     try:
         a = np.asarray(o)
@@ -123,6 +127,13 @@ def call(f):
             return f()
     except (ValueError, IndexError, TypeError, KeyError, ZeroDivisionError, AttributeError, NotImplementedError) as e:
         return 'err ' + type(e).__name__
+
+
+def container_token(obj):
+    """What `check_format` sees: type(x) in {csr_matrix, csc_matrix, coo_matrix, lil_matrix, np.ndarray}."""
+    t = type(obj)
+    return {sparse.csr_matrix: 'csr', sparse.csc_matrix: 'csc', sparse.coo_matrix: 'coo', sparse.lil_matrix: 'lil',
+            np.ndarray: 'ndarray'}.get(t, 'other')
 
 
 # ----------------------------------------------------------------------------------------------
@@ -170,56 +181,89 @@ def adjacency_in_format(a_csr, fmt, rng):
         return m
     if fmt == 'csc':
         return a_csr.tocsc()
+    if fmt == 'coo':
+        return a_csr.tocoo()
+    if fmt == 'lil':
+        return a_csr.tolil()
     if fmt == 'dense':
         return a_csr.toarray()
+    if fmt == 'bool':
+        return a_csr.astype(bool)           # callers use it on 0/1 weights only
+    if fmt == 'int':
+        return a_csr.astype(np.int64)       # callers use it on integer weights only
+    if fmt == 'csr_array':
+        return sparse.csr_array(a_csr)
+    if fmt == 'np_matrix':
+        return np.matrix(a_csr.toarray())
+    if fmt == 'dok':
+        return a_csr.todok()
     raise ValueError(fmt)
+
+
+REFUSED_FMTS = ('csr_array', 'np_matrix', 'dok')
+
+
+def usable_format(a_csr, fmt):
+    """dtype variants only where they denote the same matrix"""
+    if fmt == 'bool':
+        return bool((a_csr.data == 1).all())
+    if fmt == 'int':
+        return bool((a_csr.data == np.round(a_csr.data)).all())
+    return True
+
+
+def features_in_format(X, fmt):
+    X = np.array(X, dtype=float)
+    if fmt == 'dense':
+        return X
+    if fmt == 'int':
+        return X.astype(np.int64) if (X == np.round(X)).all() else X
+    m = sparse.csr_matrix(X)
+    return {'csr': m, 'csc': m.tocsc(), 'coo': m.tocoo(), 'lil': m.tolil()}[fmt]
 
 
 def forward_cases(ctx, a_csr, X, W, b, norm, se, act, afmt='csr', xfmt='dense', via='conv', tag='forward'):
     """Cases for one call of a layer.  `a_csr` float csr, X dense ndarray, W (d x c), b list or None."""
     rng = ctx.rng
     c = np.asarray(W).shape[1]
+    if not usable_format(a_csr, afmt):
+        afmt = 'csr'
     A_in = adjacency_in_format(a_csr, afmt, rng)
-    X_in = sparse.csr_matrix(X) if xfmt == 'csr' else np.array(X, dtype=float)
+    X_in = features_in_format(X, xfmt)
     eff_norm, eff_se = ('left', True) if via == 'sage' else (norm, se)
     eff_act = ACT_OF_LOSS.get(act, act)
     desc = {'kind': 'forward', 'adjacency': tolist(a_csr.toarray()), 'features': tolist(X), 'weight': tolist(W),
             'bias': None if b is None else [float(v) for v in b], 'normalization': norm, 'self_embeddings': bool(se),
             'activation': act, 'adjacency_format': afmt, 'features_format': xfmt, 'via': via}
-    sig = {'entry': 'Convolution.forward', 'adjacency': 'dense' if afmt == 'dense' else 'sparse',
-           'normalization': eff_norm, 'activation': eff_act}
-    if afmt == 'dense':
-        sig['dense_case'] = ('post-multiplied' if eff_norm in ('right', 'both') else
-                             'sparse-features' if xfmt == 'csr' else 'plain')
+    kind = container_token(A_in)
+    sig = {'entry': 'Convolution.forward', 'adjacency': afmt, 'features': xfmt, 'normalization': eff_norm,
+           'activation': eff_act}
 
     def f():
         layer = make_layer(norm, se, act, c, W, b, via)
         out = layer(A_in, X_in)
-        m = numeric_matrix(out)
+        m = numeric_matrix(out, strict=True)
         if m is None:
-            return 'err not-a-float-matrix'
+            return 'err not-a-float-ndarray'
         if not np.array_equal(np.asarray(layer.output, dtype=float), m):
             return 'err output-attribute-differs'
         return 'ok ' + enc_out(m)
     impl = call(f)
-    a_tok = enc_any(A_in if afmt != 'csc' else A_in.tocsr())
+    a_tok = enc_any(A_in)
     x_tok = enc_any(X_in)
     w_tok = enc_dense(W)
     b_tok = '_' if b is None else enc_flat(b)
     args = '%s %s %s %s %s %s %s' % (eff_norm, '1' if eff_se else '0', eff_act, a_tok, x_tok, w_tok, b_tok)
-    run = 'c19.forward ' + args
+    run = 'c19.forward %s %s' % (kind, args)
     spec = None
     if impl.startswith('ok '):
         spec = 'c19.spec_forward %s d:%s' % (args, impl[3:])
+    elif kind != 'other' and a_csr.shape[1] == X.shape[0] and X.shape[1] == np.asarray(W).shape[0] and \
+            (eff_norm in ('left', 'none') or a_csr.shape[0] == a_csr.shape[1]):
+        # an accepted container and fitting shapes: the documented output exists, the layer must return it
+        spec = 'c19.spec_forward %s d:0:0:-' % args
     nontriv = a_csr.nnz > 0 and impl.startswith('ok')
     key = (tag, a_tok, x_tok, w_tok, b_tok, eff_norm, eff_se, eff_act, afmt, xfmt, via)
-    if afmt == 'dense':
-        # the signature of forward allows an ndarray: judged by the specification alone (no run line), so that
-        # the day it is supported nothing has to change here
-        shapes_ok = a_csr.shape[1] == X.shape[0] and (eff_norm in ('left', 'none') or a_csr.shape[0] == a_csr.shape[1])
-        if shapes_ok and not impl.startswith('ok '):
-            return [Case(key, sig, None, impl, 'c19.spec_forward %s d:0:0:-' % args, nontriv, desc)]
-        return [Case(key, sig, None, impl, spec, nontriv, desc)] if spec else []
     return [Case(key, sig, run, impl, spec, nontriv, desc)]
 
 
@@ -279,7 +323,7 @@ def forward_grid(ctx, a_csr, rng, full, tag='forward', afmts=('csr',), equivaria
         W = rand_matrix(rng, d, c, rng.choice(['normal', 'dyadic']))
         b = None if rng.random() < 0.3 else [rng.choice([0.0, 0.5, -1.0, rng.gauss(0, 1)]) for _ in range(c)]
         afmt = rng.choice(afmts)
-        xfmt = 'csr' if rng.random() < 0.35 else 'dense'
+        xfmt = rng.choice(FEATURE_FMTS)
         via = 'conv'
         r = rng.random()
         if r < 0.08:
@@ -290,7 +334,7 @@ def forward_grid(ctx, a_csr, rng, full, tag='forward', afmts=('csr',), equivaria
             act = 'CrossEntropy' if act == 'softmax' else 'BinaryCrossEntropy'
         out += forward_cases(ctx, a_csr, X, W, b, norm, se, act, afmt, xfmt, via, tag)
         ctx.count('forward:%s:%s' % (norm, 'self' if se else 'noself'))
-        if equivariance and n_row == n_col and n_row > 1 and afmt != 'dense':
+        if equivariance and n_row == n_col and n_row > 1 and afmt not in REFUSED_FMTS:
             out += equivariance_check(ctx, a_csr, X, W, b, norm, se, act, via, rng)
     return out
 
@@ -385,7 +429,8 @@ def loss_cases(ctx, loss, S, labels):
     y = np.array(labels, dtype=int)
     desc = {'kind': 'loss', 'loss': loss, 'signal': tolist(S), 'labels': [int(v) for v in labels]}
     sig0 = {'loss': loss, 'channels': 'one' if c == 1 else 'several'}
-    in_domain = len(labels) == n and n > 0 and all(0 <= v < max(c, 2) for v in labels) and (c > 1 or all(v in (0, 1) for v in labels))
+    lim = 2 if (c == 1 and loss == 'BinaryCrossEntropy') else c
+    in_domain = len(labels) == n and n > 0 and all(0 <= v < lim for v in labels)
     out = []
     impl = call(lambda: 'ok %d' % fbits(lf.loss(S.copy(), y.copy())))
     spec = None
@@ -476,32 +521,65 @@ def csr_rows(m):
     return [m.indices[m.indptr[i]:m.indptr[i + 1]].tolist() for i in range(m.shape[0])]
 
 
-def sampler_cases(ctx, a, k, seed):
-    """a: csr (explicit zeros allowed), k: sample size."""
+class RecordChoice:
+    """Record what np.random.choice is asked and answers while the sampler runs (no re-seeding, no re-drawing)."""
+
+    def __enter__(self):
+        self.calls = []
+        self.orig = np.random.choice
+
+        def wrapper(a, size=None, replace=True, p=None):
+            r = self.orig(a, size=size, replace=replace, p=p)
+            self.calls.append((int(a), np.asarray(r).ravel().tolist()))
+            return r
+        np.random.choice = wrapper
+        return self
+
+    def __exit__(self, *exc):
+        np.random.choice = self.orig
+        return False
+
+
+SAMPLER_FMTS = ('csr', 'csr', 'unsorted', 'csc', 'coo', 'lil', 'dense', 'dup')
+
+
+def sampler_cases(ctx, a, k, seed, fmt='csr'):
+    """a: csr (explicit zeros allowed), k: sample size, fmt: the container handed to the sampler."""
     from sknetwork.gnn.neighbor_sampler import UniformNeighborSampler
     n = a.shape[0]
-    ip, ix = enc_list(a.indptr), enc_list(a.indices)
+    if fmt in ('csr', 'unsorted', 'dup'):
+        A_in = a.copy() if fmt == 'csr' else adjacency_in_format(a, fmt, ctx.rng)
+    else:
+        A_in = adjacency_in_format(a, fmt, ctx.rng)
+    ref = sparse.csr_matrix(A_in)            # the CSR matrix of the same stored entries (what check_format builds)
+    ref = sparse.csr_matrix((np.asarray(ref.data, dtype=float), ref.indices.copy(), ref.indptr.copy()), shape=ref.shape)
+    ip, ix, dt = enc_list(ref.indptr), enc_list(ref.indices), enc_flat(ref.data)
     desc = {'kind': 'sampler', 'shape': list(a.shape), 'indptr': a.indptr.tolist(), 'indices': a.indices.tolist(),
-            'data': a.data.tolist(), 'sample_size': k, 'seed': seed}
-    sig = {'entry': 'UniformNeighborSampler'}
-    before = (a.indptr.copy(), a.indices.copy(), a.data.copy())
+            'data': a.data.tolist(), 'sample_size': k, 'seed': seed, 'container': fmt}
+    sig = {'entry': 'UniformNeighborSampler', 'container': fmt,
+           'explicit_zero': bool(ref.nnz and (ref.data == 0).any())}
+    before = ref.toarray().copy()
     np.random.seed(seed)
-    s = call(lambda: UniformNeighborSampler(sample_size=k)(a))
-    np.random.seed(seed)
-    choice = [np.random.choice(int(d), size=min(int(d), k), replace=False).tolist() for d in np.diff(a.indptr)]
+    with RecordChoice() as rec:
+        s = call(lambda: UniformNeighborSampler(sample_size=k)(A_in))
     out = []
     if isinstance(s, str):
         ctx.spec_fail(sig, desc, {'sampler': s})
         return out
-    untouched = all(np.array_equal(x, y) for x, y in zip(before, (a.indptr, a.indices, a.data)))
+    s = sparse.csr_matrix(s)
+    untouched = np.array_equal(before, sparse.csr_matrix(A_in).toarray())
     ones = bool((s.data == 1).all()) and s.shape == a.shape
     impl = 'ok ' + enc_rows(csr_rows(s)) if (untouched and ones) else 'err input-modified-or-data-not-one'
-    ch = enc_rows(choice)
-    out.append(Case(('sampler', ip, ix, k, seed), sig, 'c19.sample %d %s %s %s' % (n, ip, ix, ch), impl,
-                    'c19.spec_sample %d %s %s %d %s' % (n, ip, ix, k, enc_rows(csr_rows(s))), a.nnz > 0, desc))
-    out.append(Case(('choice', ip, k, seed), {'entry': 'np.random.choice', 'contract': True}, None, 'holds',
-                    'c19.contract_choice %d %s %d %s' % (n, ip, k, ch), False, desc))
+    choice = [c for _, c in rec.calls]
+    degs = [d for d, _ in rec.calls]
+    ch = enc_rows(choice) if len(choice) == n else enc_rows([[]] * n)
+    out.append(Case(('sampler', ip, ix, dt, k, seed, fmt), sig, 'c19.sample %d %s %s %s %s' % (n, ip, ix, dt, ch), impl,
+                    'c19.spec_sample %d %s %s %s %d %s' % (n, ip, ix, dt, k, enc_rows(csr_rows(s))), a.nnz > 0, desc))
+    if len(choice) == n:
+        out.append(Case(('choice', ip, k, seed, fmt), {'entry': 'np.random.choice', 'contract': True}, None, 'holds',
+                        'c19.contract_choice %d %s %d %s' % (n, enc_list(degs), k, ch), False, desc))
     ctx.count('sampler:k=%d' % k)
+    ctx.count('sampler:container:' + fmt)
     return out
 
 
@@ -517,41 +595,79 @@ def layer_tokens(layer, adj):
     return '%s %s %s %s %s %s' % (norm, '1' if layer.self_embeddings else '0', eff, enc_any(adj), enc_dense(layer.weight), b)
 
 
+def _layer_type_sig(lt):
+    return lt if isinstance(lt, str) else 'mixed'
+
+
 def classifier_cases(ctx, a_csr, X, labels, cfg):
-    """Fit a GNNClassifier and check forward / labels_ / predict_proba / seed determinism."""
+    """Fit a GNNClassifier and check forward / sampled adjacencies / labels_ / predict_proba / seed determinism /
+    reinit.  The sampled adjacencies are recorded from the fit itself (`_sample_nodes` wrapped)."""
     from sknetwork.gnn.gnn_classifier import GNNClassifier
     n = a_csr.shape[0]
     desc = {'kind': 'classifier', 'adjacency': tolist(a_csr.toarray()), 'features': tolist(X),
             'labels': labels if isinstance(labels, list) else {str(k): int(v) for k, v in labels.items()}, 'cfg': cfg}
     dims = cfg['dims']
     c = dims[-1]
+    afmt = cfg.get('adjacency_format', 'csr')
+    if not usable_format(a_csr, afmt):
+        afmt = 'csr'
+    xfmt = cfg.get('features_format', 'dense')
     sig = {'entry': 'GNNClassifier', 'loss': cfg['loss'], 'channels': 'one' if c == 1 else 'several',
-           'layer_type': cfg['layer_types']}
-    X_in = sparse.csr_matrix(X) if cfg['features_format'] == 'csr' else np.array(X, dtype=float)
+           'layer_type': _layer_type_sig(cfg['layer_types']), 'adjacency': afmt, 'features': xfmt}
+    A_in = adjacency_in_format(a_csr, afmt, ctx.rng)
+    X_in = features_in_format(X, xfmt)
     lab_in = np.array(labels) if isinstance(labels, list) else dict(labels)
+    fit_kw = dict(n_epochs=cfg['n_epochs'], random_state=cfg['random_state'], validation=cfg.get('validation', 0))
 
     def build():
         return GNNClassifier(dims=list(dims), layer_types=cfg['layer_types'], activations=cfg['activations'],
                              use_bias=cfg['use_bias'], normalizations=cfg['normalizations'],
                              self_embeddings=cfg['self_embeddings'], sample_sizes=cfg['sample_size'], loss=cfg['loss'],
-                             optimizer=cfg['optimizer'], early_stopping=False)
+                             optimizer=cfg['optimizer'], early_stopping=cfg.get('early_stopping', False),
+                             patience=cfg.get('patience', 10))
 
-    def fit():
-        g = build()
-        g.fit(a_csr.copy(), X_in.copy(), lab_in.copy() if hasattr(lab_in, 'copy') else lab_in,
-              n_epochs=cfg['n_epochs'], random_state=cfg['random_state'])
+    def fit(g=None, rec=None, **extra):
+        g = build() if g is None else g
+        if rec is not None:
+            orig = g._sample_nodes
+
+            def wrapped(adj):
+                r = orig(adj)
+                rec.append(list(r))
+                return r
+            g._sample_nodes = wrapped
+        g.fit(A_in.copy(), X_in.copy(), lab_in.copy() if hasattr(lab_in, 'copy') else lab_in, **fit_kw, **extra)
         return g
-    g = call(fit)
-    ctx.count('classifier:%s:%s:c=%d' % (cfg['layer_types'], cfg['loss'], c))
+    rec = []
+    g = call(lambda: fit(rec=rec))
+    ctx.count('classifier:%s:%s:c=%d' % (_layer_type_sig(cfg['layer_types']), cfg['loss'], c))
+    ctx.count('classifier:adjacency:' + afmt)
     out = []
-    if isinstance(g, str):
-        ctx.spec_fail(dict(sig, check='fit'), desc, {'fit': g})
+    if container_token(A_in) == 'other' or container_token(X_in) == 'other':
+        # check_format refuses the container: a TypeError, nothing else
+        impl = g if isinstance(g, str) else 'ok'
+        out.append(Case(('fit-refused', afmt, xfmt), dict(sig, check='check_format'), 'c19.check_format other', impl, None,
+                        False, desc, canon='exact'))
         return out
-    # the sampled adjacencies of this fit (sage layers): same seed, same draws (validation = 0)
-    np.random.seed(cfg['random_state'])
-    adjs = g._sample_nodes(a_csr)
+    if isinstance(g, str) or not rec:
+        ctx.spec_fail(dict(sig, check='fit'), desc, {'fit': g if isinstance(g, str) else '_sample_nodes not called'})
+        return out
+    adjs = rec[-1]
     output = np.asarray(g.output_, dtype=float)
-    # 1. forward through all layers with the fitted parameters
+    # 0. the sampled adjacency of every sage layer: rows are sub-multisets of the rows of the input, min(deg, k) each
+    ref = sparse.csr_matrix(A_in).astype(float)
+    ip, ix, dt = enc_list(ref.indptr), enc_list(ref.indices), enc_flat(ref.data)
+    for li, (layer, adj) in enumerate(zip(g.layers, adjs)):
+        if layer.layer_type == 'sage':
+            sm = call(lambda: sparse.csr_matrix(adj))
+            rows = None if isinstance(sm, str) or sm.shape != ref.shape else csr_rows(sm)
+            if rows is None or not bool((sm.data == 1).all()):
+                ctx.spec_fail(dict(sig, check='sampled-adjacency'), desc, {'layer': li, 'sampled': str(sm)[:200]})
+            else:
+                out.append(Case(('sampled', li, ip, ix, dt, enc_rows(rows)), dict(sig, check='sampled-adjacency'), None, 'holds',
+                                'c19.spec_sample_set %d %s %s %s %d %s' % (n, ip, ix, dt, layer.sample_size, enc_rows(rows)),
+                                True, desc))
+    # 1. forward through all layers with the fitted parameters and the adjacencies the fit used
     toks = ' '.join(layer_tokens(l, a) for l, a in zip(g.layers, adjs))
     key = ('gnn', toks, enc_any(X_in))
     out.append(Case(key, dict(sig, check='forward'), 'c19.gnn %s %s' % (enc_any(X_in), toks), 'ok ' + enc_out(output),
@@ -577,29 +693,49 @@ def classifier_cases(ctx, a_csr, X, labels, cfg):
         out.append(Case(('proba', o_tok, k), dict(sig, check='predict_proba'), 'c19.proba %s %s' % (k, o_tok),
                         'ok ' + enc_out(pm), 'c19.spec_proba %d %d %s %s' % (n, cols, enc_dense(pm), enc_list(labs)),
                         True, desc))
-    # 4. identical for identical random_state (fresh object; the theorem is C16's)
+    # 4. identical for identical random_state: a fresh object, and the same object refitted with reinit=True
+    #    (observed; the theorem is C16's)
+    def same_as_first(h):
+        return (not isinstance(h, str)) and np.array_equal(np.asarray(h.output_), np.asarray(g.output_), equal_nan=True) \
+            and np.array_equal(np.asarray(h.labels_), labs)
     g2 = call(fit)
-    if isinstance(g2, str) or not (np.array_equal(np.asarray(g2.output_), np.asarray(g.output_))
-                                   and np.array_equal(np.asarray(g2.labels_), labs)):
-        ctx.spec_fail(dict(sig, check='random_state'), desc, {'second_fit': 'differs'})
+    if not same_as_first(g2):
+        ctx.spec_fail(dict(sig, check='random_state'), desc, {'second_fit': g2 if isinstance(g2, str) else 'differs'})
+    if cfg.get('refit'):
+        g3 = call(lambda: fit(g=g2, reinit=True)) if not isinstance(g2, str) else g2
+        if not same_as_first(g3):
+            ctx.spec_fail(dict(sig, check='reinit'), desc, {'refit_with_reinit': g3 if isinstance(g3, str) else 'differs'})
     return out
 
 
+CLASSIFIER_ADJ_FMTS = ('csr', 'csr', 'csc', 'coo', 'lil', 'dense', 'unsorted', 'dup', 'bool', 'csr_array')
+CLASSIFIER_X_FMTS = ('dense', 'dense', 'csr', 'csc', 'coo', 'lil')
+
+
 def rand_cfg(rng, n_layers, c):
-    """GD with use_bias=False raises in optimizer.py (None - array): outside this property, see the status file."""
-    lt = rng.choice(['conv', 'conv', 'sage'])
+    """GD with a layer without bias raises in optimizer.py (None - array): outside this property, see the status file."""
     loss = rng.choice(['CrossEntropy', 'CrossEntropy', 'BinaryCrossEntropy'])
     dims = [rng.randint(2, 4) for _ in range(n_layers - 1)] + [c]
-    return {'dims': dims, 'layer_types': lt, 'activations': rng.choice(['Relu', 'Sigmoid', 'Identity', 'Softmax']),
-            'use_bias': rng.random() < 0.8, 'normalizations': rng.choice(['left', 'right', 'both']),
-            'self_embeddings': rng.random() < 0.7, 'sample_size': rng.choice([1, 2, 3, 25]), 'loss': loss,
-            'optimizer': 'Adam', 'n_epochs': rng.randint(1, 6), 'random_state': rng.randrange(1000),
-            'features_format': rng.choice(['dense', 'csr'])}
+    per_layer = rng.random() < 0.35
+
+    def opt(draw):
+        return [draw() for _ in range(n_layers)] if per_layer else draw()
+    lt = opt(lambda: rng.choice(['conv', 'Conv', 'sage', 'Sage']))
+    use_bias = opt(lambda: rng.random() < 0.8)
+    all_bias = all(use_bias) if isinstance(use_bias, list) else use_bias
+    return {'dims': dims, 'layer_types': lt,
+            'activations': opt(lambda: rng.choice(['Relu', 'Sigmoid', 'Identity', 'Softmax'])),
+            'use_bias': use_bias,
+            'normalizations': opt(lambda: rng.choice(['left', 'right', 'both', 'Both', None])),
+            'self_embeddings': opt(lambda: rng.random() < 0.7), 'sample_size': opt(lambda: rng.choice([1, 2, 3, 25])),
+            'loss': loss, 'optimizer': rng.choice(['Adam', 'GD']) if all_bias else 'Adam',
+            'n_epochs': rng.choice([0, 1, 2, 3, 5, 6]), 'random_state': rng.randrange(1000),
+            'validation': rng.choice([0, 0, 0.3, 0.5]), 'early_stopping': rng.random() < 0.5, 'patience': rng.choice([1, 2, 10]),
+            'refit': rng.random() < 0.4,
+            'adjacency_format': rng.choice(CLASSIFIER_ADJ_FMTS), 'features_format': rng.choice(CLASSIFIER_X_FMTS)}
 
 
 def _fix_cfg(cfg, rng):
-    if cfg['use_bias']:
-        cfg['optimizer'] = rng.choice(['Adam', 'GD'])
     return cfg
 
 
@@ -612,11 +748,24 @@ ACT_NAMES = ['Relu', 'relu', 'ReLu', 'RELU', 'sigmoid', 'Sigmoid', 'softmax', 'S
              'tanh', 'soft max']
 LOSS_NAMES = [None, None, 'CrossEntropy', 'crossentropy', 'CE', 'ce', 'Cross Entropy', 'cross entropy',
               'BinaryCrossEntropy', 'BCE', 'bce', 'binary cross entropy', 'Binary CrossEntropy', 'mse', '']
-NORM_NAMES = ['left', 'Left', 'RIGHT', 'right', 'both', 'Both', 'none', 'None', 'sym', '']
+NORM_NAMES = ['left', 'Left', 'RIGHT', 'right', 'both', 'Both', 'none', 'None', 'sym', '', None, None]
 
 
 def _q(t):
+    if t is None:
+        return '_'
     return "''" if t == '' else t.replace(' ', '~')
+
+
+def check_norms_cases(ctx, value):
+    """`check_normalizations` as GNNClassifier calls it: a string, None, or a list of them."""
+    from sknetwork.gnn.utils import check_normalizations
+    impl = call(lambda: (check_normalizations(value), 'ok')[1])
+    names = value if isinstance(value, list) else [value]
+    desc = {'kind': 'check_norms', 'value': value}
+    ctx.count('check_normalizations')
+    return [Case(('check_norms', repr(value)), {'entry': 'check_normalizations', 'has_none': any(v is None for v in names)},
+                 'c19.check_norms ' + ';'.join(_q(v) for v in names), impl, None, True, desc, canon='exact')]
 
 
 def resolve_cases(ctx, layer, activation, loss, normalization, se, c):
@@ -663,6 +812,12 @@ def stream_config(ctx, quick, scale=1.0):
         c = rng.randint(1, 4)
         labels = [rng.randrange(rng.randint(1, 5)) for _ in range(rng.randint(1, 6))]
         cases += check_output_cases(ctx, c, labels)
+    for _ in range(int((30 if quick else 300) * scale)):
+        if rng.random() < 0.5:
+            value = rng.choice(NORM_NAMES)
+        else:
+            value = [rng.choice(NORM_NAMES) for _ in range(rng.randint(1, 3))]
+        cases += check_norms_cases(ctx, value)
     return cases
 
 
@@ -673,11 +828,10 @@ def _same(c, model, impl, spec_ok):
     if c.canon == 'exact':
         return False
     if model.startswith('err') or impl.startswith('err'):
-        if c.canon == 'predict':
-            return False
-        # numpy / scipy word the same refusal differently (ValueError vs IndexError for a shape mismatch)
-        return model.startswith('err') and impl.startswith('err') and not impl.startswith('err not-a') \
-            and not impl.startswith('err output') and not impl.startswith('err input')
+        # numpy / scipy word the refusal of a shape or an index differently: ValueError and IndexError are one class;
+        # every other exception class (TypeError, AttributeError, NotImplementedError, KeyError, …) must match exactly
+        shape_errors = ('err ValueError', 'err IndexError')
+        return c.canon != 'predict' and model in shape_errors and impl in shape_errors
     if c.canon == 'predict':
         return model.split(' ')[1] == impl.split(' ')[1]
     if c.canon == 'scalar':
@@ -697,7 +851,9 @@ def evaluate(ctx, cases):
 # ----------------------------------------------------------------------------------------------
 # case streams
 # ----------------------------------------------------------------------------------------------
-SPARSE_FMTS = ('csr', 'csr', 'unsorted', 'dup', 'csc')
+SPARSE_FMTS = ('csr', 'csr', 'unsorted', 'dup', 'csc', 'coo', 'lil', 'bool', 'int')
+ALL_FMTS = SPARSE_FMTS + ('dense', 'dense') + REFUSED_FMTS
+FEATURE_FMTS = ('dense', 'dense', 'dense', 'csr', 'csr', 'csc', 'coo', 'lil', 'int')
 
 
 def stream_forward(ctx, quick, scale=1.0):
@@ -727,7 +883,7 @@ def stream_forward(ctx, quick, scale=1.0):
         else:
             ww = rand_weights(rng, len(es), mode)
         a = mk_adj(n, es, ww)
-        cases += forward_grid(ctx, a, rng, full=False, afmts=SPARSE_FMTS + ('dense',))
+        cases += forward_grid(ctx, a, rng, full=False, afmts=ALL_FMTS)
         ctx.count('graphs:structured:' + name.rstrip('0123456789'))
     # rectangular (biadjacency) inputs: left / none defined, right / both refuse
     for nr, nc in [(1, 2), (2, 1), (2, 3), (3, 2), (2, 4)]:
@@ -767,14 +923,14 @@ def stream_activation_loss(ctx, quick, scale=1.0):
     for _ in range(int((400 if quick else 5000) * scale)):
         loss = rng.choice(['CrossEntropy', 'BinaryCrossEntropy'])
         n = rng.randint(1, 5)
-        c = rng.choice([1, 2, 3, 4, 5]) if loss == 'BinaryCrossEntropy' else rng.choice([2, 3, 4, 5])
+        c = rng.choice([1, 2, 3, 4, 5]) if loss == 'BinaryCrossEntropy' else rng.choice([1, 2, 2, 3, 4, 5])
         S = rand_signal(rng, n, c, rng.choice(['normal', 'normal', 'dyadic', 'large']))
         labels = [rng.randrange(max(c, 2)) for _ in range(n)]
         r = rng.random()
         if r < 0.06:
             labels[rng.randrange(n)] = c + rng.randint(0, 2) if c > 1 else 2     # out of range
-        elif r < 0.1 and n >= 2:
-            labels = labels + [0]                                              # wrong length
+        elif r < 0.12:
+            labels = labels + [0] if rng.random() < 0.5 else labels[:1]        # wrong length (numpy may broadcast)
         cases += loss_cases(ctx, loss, S, labels)
     return cases
 
@@ -793,6 +949,8 @@ def stream_predict(ctx, quick, scale=1.0):
         else:
             O = rand_matrix(rng, n, c)
         cases += prediction_cases(ctx, O)
+    for n in (1, 3):
+        cases += prediction_cases(ctx, np.zeros((n, 0)))         # no channel: arg-max of an empty row raises
     return cases
 
 
@@ -804,10 +962,11 @@ def stream_sampler(ctx, quick, scale=1.0):
         es = graphs.random_edges(rng, n, rng.choice([0.2, 0.5, 0.8]), loops=True)
         a = mk_adj(n, es, rand_weights(rng, len(es), rng.choice(['ones', 'int', 'real'])))
         if a.nnz and rng.random() < 0.4:
-            a.data[rng.randrange(a.nnz)] = 0.0       # explicit zero: still a stored neighbour for the sampler
+            a.data[rng.randrange(a.nnz)] = 0.0       # explicit zero: stored, but not an edge of the graph
         if rng.random() < 0.3:
             a = graphs.unsorted_copy(a, rng)
-        cases += sampler_cases(ctx, a, rng.choice([0, 1, 1, 2, 2, 3, 5]), rng.randrange(10 ** 6))
+        cases += sampler_cases(ctx, a, rng.choice([0, 1, 1, 2, 2, 3, 5]), rng.randrange(10 ** 6),
+                               'csr' if not a.has_sorted_indices else rng.choice(SAMPLER_FMTS))
     return cases
 
 
@@ -875,11 +1034,13 @@ def cases_of_desc(ctx, d):
     if kind == 'sampler':
         a = sparse.csr_matrix((np.array(d['data'], dtype=float), np.array(d['indices'], dtype=int), np.array(d['indptr'], dtype=int)),
                               shape=tuple(d['shape']))
-        return sampler_cases(ctx, a, d['sample_size'], d['seed'])
+        return sampler_cases(ctx, a, d['sample_size'], d['seed'], d.get('container', 'csr'))
     if kind == 'resolve':
         return resolve_cases(ctx, d['layer'], d['activation'], d['loss'], d['normalization'], d['self_embeddings'], d['out_channels'])
     if kind == 'check_output':
         return check_output_cases(ctx, d['channels'], d['labels'])
+    if kind == 'check_norms':
+        return check_norms_cases(ctx, d['value'])
     if kind == 'classifier':
         a = sparse.csr_matrix(np.array(d['adjacency'], dtype=float))
         labels = d['labels'] if isinstance(d['labels'], list) else {int(k): v for k, v in d['labels'].items()}
